@@ -18,6 +18,8 @@ import (
 	"net"
 	"os"
 	"path/filepath"
+	"runtime"
+	"strings"
 	"sync"
 	"testing"
 	"time"
@@ -61,6 +63,7 @@ type srvRig struct {
 
 	mu             sync.Mutex
 	clientsStopped bool
+	nowHook        func() // called on every read of the server's clock (used to hold a particular caller)
 	proxyDials     []string
 	redirDials     []string
 }
@@ -103,6 +106,12 @@ func newSrvRig(t *testing.T, o srvOpts) *srvRig {
 	g.pv = *(pv.(*[32]byte))
 	g.pub = *(pub.(*[32]byte))
 	g.world = common.WorldState{Rand: rand.Reader, Now: func() time.Time {
+		g.mu.Lock()
+		h := g.nowHook
+		g.mu.Unlock()
+		if h != nil {
+			h()
+		}
 		if o.NowOffset != nil {
 			return time.Now().Add(o.NowOffset())
 		}
@@ -246,6 +255,26 @@ func (g *srvRig) stopClients() {
 	g.mu.Lock()
 	g.clientsStopped = true
 	g.mu.Unlock()
+}
+
+// makeSessionWithin is makeSession that keeps waiting (virtual time) up to d for the session.
+func (g *srvRig) makeSessionWithin(remote client.RemoteConnConfig, auth client.AuthInfo, transport string, d time.Duration) *mux.Session {
+	ch := make(chan *mux.Session, 1)
+	go func() { ch <- client.MakeSession(remote, auth, g.dialerFor(transport)) }()
+	deadline := time.Now().Add(d)
+	for {
+		vk.Wait()
+		select {
+		case s := <-ch:
+			return s
+		default:
+		}
+		if !time.Now().Before(deadline) {
+			g.stopClients()
+			return nil
+		}
+		time.Sleep(5 * time.Second)
+	}
 }
 
 // makeSession runs client.MakeSession; nil means it did not get its connections established by
@@ -400,4 +429,74 @@ func authWindow(t *testing.T, transport string, mode string, rng *mrand.Rand) (r
 	}
 	// for the CDN transport the tapped pipe is client<->CDN (TLS); the origin side is not needed here
 	return res, ""
+}
+
+// sameSessionBurst: n connections of one NEW session of one database user shake hands at the same
+// time, against a user manager that yields the processor inside its queries (a slow database).
+func sameSessionBurst(t *testing.T, transport string, n int, rng *mrand.Rand) (res []*awConn) {
+	uid := randUID(rng)
+	g := newSrvRig(t, srvOpts{DB: true})
+	defer g.cleanup()
+	j := usermanager.JustInt64
+	g.sta.Panel.Manager.WriteUserInfo(usermanager.UserInfo{UID: uid, SessionsCap: usermanager.JustInt32(int32(1 + rng.IntN(3))), UpRate: j(1 << 30), DownRate: j(1 << 30), UpCredit: j(1 << 40), DownCredit: j(1 << 40), ExpiryTime: j(time.Now().Unix() + 1e6)})
+	g.sta.Panel.Manager = yieldingManager{g.sta.Panel.Manager}
+	g.serve()
+	defer g.stopClients()
+	sid := uint32(1 + rng.IntN(1000))
+	for k := 0; k < n; k++ {
+		c := &awConn{uid: uid, sid: sid}
+		res = append(res, c)
+		cfg := cliCfg{UID: uid, Method: "shadowsocks", Enc: "aes-gcm", Transport: transport, Browser: []string{"firefox", "chrome", "safari"}[k%3], NumConn: 1, SessionID: sid}
+		_, remote, auth, err := g.clientConfigs(cfg)
+		if err != nil {
+			c.err, c.done = err, true
+			continue
+		}
+		var l *vk.Listener = g.lis
+		if transport == "cdn" {
+			l = g.cdnL
+		}
+		conn, pipe, _ := l.DialPipe()
+		c.pipe = pipe
+		c.cliConn = remote.Transport.CreateTransport()
+		go func() {
+			c.key, c.err = c.cliConn.Handshake(conn, auth)
+			c.done = true
+		}()
+	}
+	vk.Wait()
+	time.Sleep(20 * time.Second)
+	vk.Wait()
+	var arr [16]byte
+	copy(arr[:], uid)
+	g.sta.Panel.activeUsersM.RLock()
+	u := g.sta.Panel.activeUsers[arr]
+	g.sta.Panel.activeUsersM.RUnlock()
+	for _, c := range res {
+		if u != nil {
+			u.sessionsM.RLock()
+			if s := u.sessions[c.sid]; s != nil {
+				k := s.GetSessionKey()
+				c.srvKey = &k
+			}
+			u.sessionsM.RUnlock()
+		}
+	}
+	return res
+}
+
+// calledFrom reports whether a function whose name contains substr is on the current stack.
+func calledFrom(substr string) bool {
+	pcs := make([]uintptr, 32)
+	n := runtime.Callers(2, pcs)
+	frames := runtime.CallersFrames(pcs[:n])
+	for {
+		f, more := frames.Next()
+		if strings.Contains(f.Function, substr) {
+			return true
+		}
+		if !more {
+			return false
+		}
+	}
 }
